@@ -7,7 +7,7 @@ from pyvc import arrays as A
 from pyvc import spec as S
 
 EXPLANATION = "spec_append: whole-result postcondition (every cell) for all shapes and shifts; readspec request key injective (BV64 lemma)."
-UNDECIDED = ["readspec: FITS I/O, file location (spec_path/latest_mjd/number_of_fibers) -- trusted (A5)",
+UNDECIDED = ["readspec: FITS I/O, file location (spec_path/number_of_fibers) -- trusted (A5); latest_mjd only as a bounded stand-in over in-memory directory listings",
              "readspec: per-HDU row selection and final argsort reorder are decided for the request-grouping key (lemma) and by the bounded readspec_reorder job on generated file sets (FITS reader replaced by in-memory HDUs)"]
 
 
@@ -261,3 +261,55 @@ class ReadspecReorder:
         except Exception as e:
             return (False, "raised %s: %s" % (type(e).__name__, e))
         return (not bad, "request (plate-mjd index, fibre) %s: mismatching outputs %s" % (req, bad))
+
+
+# ---------------------------------------------------------------------------
+# which plate-MJD file is "the latest": a function of the files present under the given path at the time of the call (bounded stand-in)
+# ---------------------------------------------------------------------------
+from pyvc.numeric import NumericJob as _NumericJob
+
+
+@register("C16")
+class LatestMjd(_NumericJob):
+    name = "latest_mjd_per_tree"
+    target = "pydl.pydlspec2d.spec1d:latest_mjd (used by readspec when mjd is omitted)"
+    bound = ("2..3 synthetic directory trees (glob replaced by an in-memory listing) holding 1..4 MJDs for each of 1..4 plates; the trees are queried one after the "
+             "other, a newer file is then added to the first tree and it is queried again; scalar and array plate arguments")
+    KINDS = ("latest_mjd_is_the_maximum_present_under_the_given_path_now",)
+    NQ, NT = 40, 400
+
+    def _cases(self, rng, n):
+        for rep in range(n):
+            plates = rng.sample([300, 301, 1234, 42, 9999], rng.randint(1, 4))
+            trees = []
+            for t in range(rng.randint(2, 3)):
+                trees.append({p: sorted(rng.sample(range(51000, 58000), rng.randint(1, 4))) for p in plates})
+            yield dict(plates=plates, trees=trees, inp=dict(rep=rep, plates=plates, trees=[{str(k): v for k, v in t.items()} for t in trees]))
+
+    def _check(self, c):
+        import re
+        from unittest import mock
+        import pydl.pydlspec2d.spec1d as m
+        trees = [dict((p, list(v)) for p, v in t.items()) for t in c["trees"]]
+        bad = []
+
+        def fake_glob(pattern):
+            mm = re.match(r"/tree(\d+)/.*spPlate-(\d+)-\*\.fits$", pattern)
+            if not mm:
+                return []
+            t, p = int(mm.group(1)), int(mm.group(2))
+            return ["/tree%d/spPlate-%04d-%05d.fits" % (t, p, mj) for mj in trees[t].get(p, [])]
+        with mock.patch.object(m.glob, "glob", fake_glob):
+            order = list(range(len(trees))) + [0]
+            for step, t in enumerate(order):
+                if step == len(order) - 1:
+                    for p in c["plates"]:
+                        trees[0][p].append(max(max(tt[p]) for tt in trees) + 7)       # a newer observation arrives in the first tree
+                want = [max(trees[t][p]) for p in c["plates"]]
+                got = list(np.asarray(m.latest_mjd(np.array(c["plates"]), path="/tree%d" % t)))
+                one = int(np.asarray(m.latest_mjd(c["plates"][0], path="/tree%d" % t)).ravel()[0])
+                if got != want or one != want[0]:
+                    bad.append(("latest_mjd_is_the_maximum_present_under_the_given_path_now", "query %d (tree %d): plates %s -> %s (scalar %d), files present give %s" %
+                                (step + 1, t, c["plates"], got, one, want)))
+                    break
+        return bad
